@@ -41,6 +41,8 @@ Vanished(e, toks, I) ==
 TrailEmpty(e, toks, I) ==
   CASE e.k = "sym" -> FALSE
     [] e.k = "twin" -> FALSE
+    [] e.k = "nt" -> LET live == { k \in 1..Len(e.sub) : Tok(e.sub[k], toks, I) # {} } IN      \* a helper nonterminal ends where its rule ends
+                     live # {} /\ TrailEmpty(e.sub[Min(live)], toks, Tok(e.sub[Min(live)], toks, I))
     [] e.k = "list" -> I = {}
     [] e.k = "opt" -> I # {} /\ TrailEmpty(e.sub[1], toks, I)
     [] e.k = "arrow" -> TrailEmpty(e.sub[1], toks, I)
@@ -52,23 +54,31 @@ Both(x, y) == [now |-> x.now \o y.now, later |-> x.later \o y.later]
 None == [now |-> <<>>, later |-> <<>>]
 RECURSIVE ConcatB(_, _)
 ConcatB(f, k) == IF k = 0 THEN None ELSE Both(ConcatB(f, k - 1), f[k])
-RECURSIVE Ev(_, _, _, _)
-Ev(e, toks, I, nextOff) ==
+RECURSIVE Ev(_, _, _, _, _)
+Ev(e, toks, I, nextOff, fw) ==     \* fw: fixWhitespace - ranges do not extend over trailing empty symbols
   CASE e.k = "sym" -> None
     [] e.k = "arrow" ->
-         LET in == Ev(e.sub[1], toks, I, nextOff) IN
+         LET in == Ev(e.sub[1], toks, I, nextOff, fw) IN
          [now |-> in.now,
           later |-> in.later \o << IF I = {} THEN <<e.name, nextOff, nextOff>>
-                                    ELSE <<e.name, toks[Min(I)][2], IF TrailEmpty(e.sub[1], toks, I) THEN nextOff ELSE toks[Max(I)][3]>> >>]
-    [] e.k = "opt" -> IF I = {} THEN None ELSE Ev(e.sub[1], toks, I, nextOff)
+                                    ELSE <<e.name, toks[Min(I)][2], IF ~fw /\ TrailEmpty(e.sub[1], toks, I) THEN nextOff ELSE toks[Max(I)][3]>> >>]
+    [] e.k = "opt" -> IF I = {} THEN None ELSE Ev(e.sub[1], toks, I, nextOff, fw)
     [] e.k = "seq" ->
          LET Ik(k) == { i \in I : toks[i][1] \in Terms(e.sub[k]) }
              Later(k) == UNION { Ik(m) : m \in (k+1)..Len(e.sub) }
-             f == [k \in 1..Len(e.sub) |-> Ev(e.sub[k], toks, Ik(k), IF Later(k) = {} THEN nextOff ELSE toks[Min(Later(k))][2])]
+             f == [k \in 1..Len(e.sub) |-> Ev(e.sub[k], toks, Ik(k), IF Later(k) = {} THEN nextOff ELSE toks[Min(Later(k))][2], fw)]
          IN ConcatB(f, Len(e.sub))
     [] e.k = "alt" ->
          LET live == { k \in 1..Len(e.sub) : \E i \in I : toks[i][1] \in Terms(e.sub[k]) } IN
-         IF live = {} THEN None ELSE LET k == Min(live) IN Ev(e.sub[k], toks, { i \in I : toks[i][1] \in Terms(e.sub[k]) }, nextOff)
+         IF live = {} THEN None ELSE LET k == Min(live) IN Ev(e.sub[k], toks, { i \in I : toks[i][1] \in Terms(e.sub[k]) }, nextOff, fw)
+    [] e.k = "nt" ->         \* a helper nonterminal: its alternative is reduced on its own, a rule-level node of the alternative comes last
+         LET live == { k \in 1..Len(e.sub) : \E i \in I : toks[i][1] \in Terms(e.sub[k]) } IN
+         IF live = {} THEN None ELSE
+         LET alt == e.sub[Min(live)]
+             in == Ev(alt, toks, I, nextOff, fw)
+             node == IF alt.name = "" THEN <<>>
+                     ELSE << <<alt.name, toks[Min(I)][2], IF ~fw /\ TrailEmpty(alt, toks, I) THEN nextOff ELSE toks[Max(I)][3]>> >>
+         IN [now |-> in.now \o in.later \o node, later |-> <<>>]
     [] e.k = "twin" ->       \* (x -> A)+ y (x -> B)+ : two lists over the same element, reported as different nodes
          LET m == Min({ i \in I : toks[i][1] = e.sep - 1 })
              xs == Sorted({ i \in I : toks[i][1] = e.t })
@@ -78,7 +88,7 @@ Ev(e, toks, I, nextOff) ==
          LET hs == Sorted({ i \in I : toks[i][1] = HeadT(e.sub[1]) })
              It(j) == { i \in I : i >= hs[j] /\ (j = Len(hs) \/ i < hs[j+1]) /\ toks[i][1] \in Terms(e.sub[1]) }
              After(j) == { i \in I : i > Max(It(j)) }
-             one(j) == Ev(e.sub[1], toks, It(j), IF After(j) = {} THEN nextOff ELSE toks[Min(After(j))][2])
+             one(j) == Ev(e.sub[1], toks, It(j), IF After(j) = {} THEN nextOff ELSE toks[Min(After(j))][2], fw)
              f == [j \in 1..Len(hs) |-> one(j).now \o one(j).later]     \* an iteration is a reduction of the list nonterminal
          IN [now |-> Concat(f, Len(hs)), later |-> <<>>]
 
@@ -86,13 +96,13 @@ Ev(e, toks, I, nextOff) ==
 Markers(rules) == { rules[r].marker : r \in 1..Len(rules) }
 RuleOf(rules, m) == rules[CHOOSE r \in 1..Len(rules) : rules[r].marker = m]
 Starts(rules, toks) == Sorted({ i \in 1..Len(toks) : toks[i][1] \in Markers(rules) })
-Events(rules, toks, eoi) ==
+Events(rules, toks, eoi, fw) ==
   LET ss == Starts(rules, toks)
       Inst(j) == { i \in 1..Len(toks) : i >= ss[j] /\ (j = Len(ss) \/ i < ss[j+1]) }
       OffAfter(j) == IF j = Len(ss) THEN eoi ELSE toks[ss[j+1]][2]
       R(j) == RuleOf(rules, toks[ss[j]][1])
       Body(j) == [k |-> "seq", sub |-> <<[k |-> "sym", t |-> R(j).marker]>> \o R(j).elems \o <<[k |-> "sym", t |-> R(j).end]>>]
-      f == [j \in 1..Len(ss) |-> LET b == Ev(Body(j), toks, Inst(j), OffAfter(j)) IN
+      f == [j \in 1..Len(ss) |-> LET b == Ev(Body(j), toks, Inst(j), OffAfter(j), fw) IN
                                    b.now \o b.later \o << <<R(j).node, toks[ss[j]][2], toks[Max(Inst(j))][3]>> >>]
   IN Concat(f, Len(ss))
 =============================================================================
